@@ -57,6 +57,16 @@ THEOREMS = [
     "SqlglotModel.Properties.C12.copy_load_dump_differ_witness",
     "SqlglotModel.Properties.C12.json_text_roundtrip",
     "SqlglotModel.Properties.C12.dump_json_text_roundtrip",
+    "SqlglotModel.Properties.C12.load_links_any",
+    "SqlglotModel.Properties.C12.copy_links",
+    "SqlglotModel.Properties.C12.node_slot_address_unique",
+    "SqlglotModel.Properties.C12.generated_enum_codec_ok",
+    "SqlglotModel.Properties.C12.dtype_codec_roundtrip",
+    "SqlglotModel.Properties.C12.dtype_codec_mismatch_witness",
+    "SqlglotModel.Properties.C12.eq_preserved_by_load_dump",
+    "SqlglotModel.Properties.C12.eq_preserved_by_copy",
+    "SqlglotModel.Properties.C12.eq_blind_to_type_comments_meta",
+    "SqlglotModel.Properties.C12.eq_coarser_than_norm_witness",
     "SqlglotModel.Properties.C12.generated_ok",
     "SqlglotModel.Properties.C12.duplicate_keys_witness",
 ]
@@ -237,6 +247,29 @@ def translate(chk: Check) -> str:
         shape_ok = False
         problems.append("is_cast classes without a `to` property/arg, or empty class tables")
     chk.cov["type_rules"] = {"cast": cast_classes, "data_type": dt_classes}
+    # which face of a DType member travels: dump writes `node.value` / `node.name`; _load reads `exp.DType(x)` (by value)
+    # / `exp.DType[x]` (by name); a decode anywhere else (e.g. a name-keyed table inside `load`) is "other"
+    dump_by = load_by = "other"
+    if "dump" in fns:
+        vals = [ast.unparse(n.value) for n in ast.walk(fns["dump"]) if isinstance(n, ast.Assign) and len(n.targets) == 1
+                and ast.unparse(n.targets[0]) == "payload[VALUE]"]
+        if "node.value" in vals and "node.name" not in vals:
+            dump_by = "value"
+        elif "node.name" in vals and "node.value" not in vals:
+            dump_by = "name"
+    if "_load" in fns:
+        rets = [ast.unparse(n.value) for n in ast.walk(fns["_load"]) if isinstance(n, ast.Return) and n.value is not None]
+        if "exp.DType(payload[VALUE])" in rets:
+            load_by = "value"
+        elif "exp.DType[payload[VALUE]]" in rets:
+            load_by = "name"
+    if "load" in fns and "DATA_TYPE" in ast.unparse(fns["load"]):
+        load_by = "other"       # the model decodes DType members in _load only
+    dtype_table = [(d.name, d.value) for d in exp_mod.DType]
+    chk.cov["enum_codec"] = {"dump": dump_by, "load": load_by, "members": len(dtype_table),
+                             "name_ne_value": [n for n, v in dtype_table if n != v]}
+    if dump_by == "other" or load_by == "other":
+        problems.append(f"DType codec not recognised (dump: {dump_by}, load: {load_by})")
     for cls in [n for n in core.body if isinstance(n, ast.ClassDef) and n.name == "Expression"]:
         found = {fn.name: fn for fn in cls.body if isinstance(fn, ast.FunctionDef)}
         for name, (want_shape, want_assign) in EXPECTED_CORE.items():
@@ -265,6 +298,15 @@ def translate(chk: Check) -> str:
     lines.append("-- classes taking the special branches of Expression.type (live class attributes is_cast / is_data_type)")
     lines.append("def castClasses : List String := [" + ", ".join(lean_str(c) for c in cast_classes) + "]")
     lines.append("def dataTypeClasses : List String := [" + ", ".join(lean_str(c) for c in dt_classes) + "]")
+    raw_arg_classes = sorted(class_name(c()) for c in live if getattr(c, "_hash_raw_args", False))
+    chk.cov["hash_raw_arg_classes"] = raw_arg_classes
+    lines.append("-- classes whose __hash__ folds raw arg values (_hash_raw_args)")
+    lines.append("def hashRawArgClasses : List String := [" + ", ".join(lean_str(c) for c in raw_arg_classes) + "]")
+    lines.append("-- the DType codec: which face of a member dump writes / _load reads, and the live (name, value) table")
+    lines.append(f"def dumpDTypeBy : String := {lean_str(dump_by)}")
+    lines.append(f"def loadDTypeBy : String := {lean_str(load_by)}")
+    lines.append("def dtypeTable : List (String × String) := [" +
+                 ", ".join(f"({lean_str(n)}, {lean_str(v)})" for n, v in dtype_table) + "]")
     lines.append("-- how _load / dump pass mutable containers on (SharePolicy of Model/Serde.lean)")
     lines.append(f"def loadCopiesComments : Bool := {'true' if copies.get('_load') else 'false'}")
     lines.append(f"def loadBuildsMetaDict : Bool := {'true' if builds_meta else 'false'}")
@@ -789,6 +831,7 @@ def special_trees():
     k._type = exp.DataType(this=exp.DType.UNKNOWN)
     k._type._meta = {}
     out.append(k)
+    out.append(exp.Tuple(expressions=[exp.DataType(this=d, nested=False) for d in exp.DType]))   # every DType member
     return [({"special": idx}, t) for idx, t in enumerate(out)]
 
 
@@ -941,6 +984,39 @@ def sort_meta(payloads):
     return out
 
 
+def eq_variants(rng, tj):
+    """trees related to `tj` in the ways `==` is blind / sensitive to (ASCII-only case changes)"""
+    out = []
+    if "c" not in tj:
+        return out
+    a = _copy.deepcopy(tj)
+    a["o"], a["m"], a["t"] = (["other"] if not a["o"] else None), None, None
+    out.append(a)                                        # decorations
+    out.append(norm(_copy.deepcopy(tj)))                 # None / [] args dropped
+    b = _copy.deepcopy(tj)
+    changed = False
+    for node in subtrees(b):
+        for arg in node["a"]:
+            k, kind, v = arg
+            if kind == 0 and isinstance(v, dict) and "r" in v:
+                r = v["r"]
+                if r is False:
+                    node["a"].remove(arg); changed = True; break
+                if r is True:
+                    arg[2] = {"r": 1}; changed = True; break
+                if type(r) is str and r.isascii() and r.lower() != r.upper():
+                    arg[2] = {"r": r.swapcase()}; changed = True; break
+        if changed:
+            break
+    if changed:
+        out.append(b)
+    c = _copy.deepcopy(tj)
+    if c["a"]:
+        c["a"] = list(reversed(c["a"]))                  # args in another insertion order
+        out.append(c)
+    return out
+
+
 def graph_cells(root):
     """the objects of a tree in `nodes` order (= payload order of its dump): Expressions and scalars"""
     _, exp, _ = sg()
@@ -1018,6 +1094,34 @@ def _correspond(chk: Check, trees: list) -> list:
         lines.append(json.dumps({"op": "load", "payload": payloads, "expect": loaded}))
         meta.append((idx, "load", None))
         chk.corr_cases += 1
+        if idx % 6 == 5:
+            # the model of `==` (class + __hash__ fold) vs the real one, on variants `==` is blind / sensitive to
+            global _RAW_TYPE
+            try:
+                _RAW_TYPE = False
+                base = conv(t)
+                ta = build(base)
+                hash(ta)
+                cands = eq_variants(rng, base)
+                other = trees[rng.randrange(len(trees))][1]
+                try:
+                    cands.append(conv(other))
+                except Exception:
+                    pass
+                for vj in cands:
+                    tb = build(vj)
+                    try:
+                        real = bool(ta == tb)
+                    except Exception:
+                        continue
+                    lines.append(json.dumps({"op": "eq", "a": base, "b": vj, "expect": real}))
+                    meta.append((idx, "eq", None))
+                    chk.corr_cases += 1
+                    chk.count("eq-corr:" + ("equal" if real else "unequal"))
+            except Exception:
+                chk.count("corr:eq-skipped")
+            finally:
+                _RAW_TYPE = True
         if idx % 5 == 2:
             try:
                 canon = sort_meta(payloads)
@@ -1099,7 +1203,7 @@ def _correspond(chk: Check, trees: list) -> list:
                     ex["tree"] = skeleton(conv(t))
                 except Exception:
                     pass
-            chk.correspondence_broken(("Expression.__deepcopy__" if what == "copy" else "json.dumps token sequence" if what == "json-text" else f"serde.{what.split('-')[0]}") + " vs model", ex)
+            chk.correspondence_broken(("Expression.__deepcopy__" if what == "copy" else "json.dumps token sequence" if what == "json-text" else "Expression.__eq__ / __hash__" if what == "eq" else f"serde.{what.split('-')[0]}") + " vs model", ex)
             bad.append(trees[idx])
     return bad
 
